@@ -987,4 +987,57 @@ theorem bds05_not_in_df21 (fs dr um code addr : Nat) (mb : List Field)
   obtain ⟨regs, hregs, htf⟩ := tryFrom_df21 fs dr um code addr mb hfs hdr hum hcode haddr hw hfit hnz
   exact ⟨regs, htf, by rw [regs_get05 hregs]; rfl⟩
 
+/-! ## Non-vacuity / sanity anchors (tests, labelled as such)
+
+The Spec encoder reproduces frames of the repository's own test-suite bit for bit, and the hypotheses
+of the frame theorems are satisfiable on them. -/
+
+-- bds08.rs: 8d406b902015a678d4d220aa4bda  (EZY85MH)
+example : buildES 17 5 0x406b90 (me08 4 0 ['E', 'Z', 'Y', '8', '5', 'M', 'H'])
+    = [0x8d, 0x40, 0x6b, 0x90, 0x20, 0x15, 0xa6, 0x78, 0xd4, 0xd2, 0x20, 0xaa, 0x4b, 0xda] := by decide +kernel
+example : validCallsign ['E', 'Z', 'Y', '8', '5', 'M', 'H'] := ⟨by decide, by decide⟩
+example := es_identification 17 5 0x406b90 4 0 ['E', 'Z', 'Y', '8', '5', 'M', 'H'] (Or.inl rfl) (by decide) (by decide)
+  ⟨by decide, by decide⟩ (by decide) ⟨by decide, by decide⟩
+
+-- bds09.rs: 8d485020994409940838175b284f  (159 kt, track 182.88°, −832 ft/min, +550 ft)
+example : buildES 17 5 0x485020 (me09 1 0 1 0 (velGround 1 (speedCode 8) 1 (speedCode 159)) 0 1 (vrateCode 13) 0
+      (geoBaroCode 22))
+    = [0x8d, 0x48, 0x50, 0x20, 0x99, 0x44, 0x09, 0x94, 0x08, 0x38, 0x17, 0x5b, 0x28, 0x4f] := by decide +kernel
+
+-- bds05.rs: 8d40621d58c382d690c8ac2863a7  (38 000 ft)
+example : buildES 17 5 0x40621d (me05 11 0 0 (ac12Q (n25 38000)) 0 0 93000 51372)
+    = [0x8d, 0x40, 0x62, 0x1d, 0x58, 0xc3, 0x82, 0xd6, 0x90, 0xc8, 0xac, 0x28, 0x63, 0xa7] := by decide +kernel
+
+-- bds20.rs: a0001838201584f23468207cdfa5  (DF 20, 38 000 ft, EXS2MF, address 40655a from the AP overlay)
+example : buildCommB 20 0 0 0 (ac13Q (n25 38000)) 0x40655a (mb20 ['E', 'X', 'S', '2', 'M', 'F'])
+    = [0xa0, 0x00, 0x18, 0x38, 0x20, 0x15, 0x84, 0xf2, 0x34, 0x68, 0x20, 0x7c, 0xdf, 0xa5] := by decide +kernel
+
+-- bds40.rs: a000029c85e42f313000007047d3  (3300 ft; MCP 3000 ft, FMS 3000 ft, 1020.0 mb)
+example : buildCommB 20 0 0 0 (ac13Q (n25 3300)) 0x4243d0
+      (mb40 1 (selAlt40Code 3000) 1 (selAlt40Code 3000) 1 (qnh40Code 10200) 0 0 0 0 0 0)
+    = [0xa0, 0x00, 0x02, 0x9c, 0x85, 0xe4, 0x2f, 0x31, 0x30, 0x00, 0x00, 0x70, 0x47, 0xd3] := by decide +kernel
+example : NonZero (mb40 (stBit (some 30)) (((some 30).map fun k => selAlt40Code (100 * k)).getD 0)
+    (stBit (some 30)) (((some 30).map fun k => selAlt40Code (100 * k)).getD 0)
+    (stBit (some 2200)) (((some 2200).map fun v => qnh40Code (8000 + v)).getD 0) 0 0 0 0 0 0) :=
+  ⟨0, 1, 1, rfl, by decide⟩
+
+-- bds50.rs: a000139381951536e024d4ccf6b5  (roll 2.1°, track 114.26°, GS 438 kt, rate 0.125 °/s, TAS 424 kt)
+example : buildCommB 20 0 0 0 (ac13Q (n25 30275)) 0x3c4dd2 (mb50 1 12 1 650 1 219 1 4 1 212)
+    = [0xa0, 0x00, 0x13, 0x93, 0x81, 0x95, 0x15, 0x36, 0xe0, 0x24, 0xd4, 0xcc, 0xf6, 0xb5] := by decide +kernel
+example : NonZero (mb50 (stBit (some (12 : Int))) ((some (12 : Int)).getD 0) (stBit (some (650 : Int)))
+    ((some (650 : Int)).getD 0) (stBit (some 219)) ((some 219).getD 0) (stBit (some (4 : Int))) ((some (4 : Int)).getD 0)
+    (stBit (some 212)) ((some 212).getD 0)) := ⟨0, 1, 1, rfl, by decide⟩
+
+-- bds60.rs: a80004aaa74a072bfdefc1d5cb4f  (DF 21, squawk 4720; heading 110.39°, IAS 259 kt, Mach 0.7,
+--           −2144 / −2016 ft/min)
+example : buildCommB 21 0 0 0 (id13OfOctal 0o4720) 0x4ca53f (mb60 1 628 1 259 1 175 1 (-67) 1 (-63))
+    = [0xa8, 0x00, 0x04, 0xaa, 0xa7, 0x4a, 0x07, 0x2b, 0xfd, 0xef, 0xc1, 0xd5, 0xcb, 0x4f] := by decide +kernel
+
+-- bds62.rs: 8da05629ea21485cbf3f8cadaeeb  (17 000 ft selected, 1012.8 mb, heading 66.8°)
+example : buildES 17 5 0xa05629 (me62 0 0 (selAlt62Code 17000) (qnh62Code 10128) 1 95 9 1 3 1 1 1 0 0 0 1 1)
+    = [0x8d, 0xa0, 0x56, 0x29, 0xea, 0x21, 0x48, 0x5c, 0xbf, 0x3f, 0x8c, 0xad, 0xae, 0xeb] := by decide +kernel
+
+-- the altitude-match clause on a concrete DF 20 reply whose MB field is an airborne-position payload
+example : NonZero (me05 11 0 0 (ac12Q (n25 38000)) 0 0 93000 51372) := ⟨0, 5, 11, rfl, by decide⟩
+
 end Rs1090.Props.C03
